@@ -946,9 +946,13 @@ def install_ins_levels(mon):
             if not (k_hi >= mr or size - k_lo <= ms):
                 V("runs:min_remove:removed<min_remove", info)
             # never fewer than min_samples kept (given that many exist),
-            # unless the cap demands it
+            # unless the cap demands it - or exactly min_remove were removed:
+            # when the method's own choice leaves at least min_samples the
+            # property's "otherwise at least min_remove are removed" applies,
+            # whatever that leaves (min_samples + min_remove > size)
             if size >= ms and size - k_lo < ms and not (
-                    cap_on and size - k_lo + nlive >= mx):
+                    cap_on and size - k_lo + nlive >= mx) and not (
+                    k_lo <= mr <= k_hi):
                 V("runs:min_samples:kept<min_samples", info)
         if getattr(self, "resumed", False) or mon.flags.get("ins_resumed"):
             mon.classes.add("ins_levels:after-resume")
